@@ -51,6 +51,7 @@ def run(ctx):
                         "a hang is a run longer than 8 s"]
     vlib.mc_check(ctx, "FaultProto", "FaultProto.cfg", timeout=120, workers=4, coverage=True)
     vlib.mc_check(ctx, "FaultProto", "FaultProto_negF5.cfg", expect_violation="OkCommitIsComplete", timeout=120, workers=4)
+    vlib.mc_check(ctx, "FaultProto", "FaultProto_negF40.cfg", expect_violation="DiskIsSomeCommit", timeout=120, workers=4)
 
     tp = ctx.path("faults.ndjson")
     vlib.run_bin("fault_driver", ["enum", "--seed", ctx.seed, "--points", 22 if ctx.quick else 100000, "--out", tp], timeout=3000)
